@@ -455,6 +455,9 @@ func (tt *TermTable) bin(op Op, a, b *Term) *Term {
 		if a == b {
 			return a
 		}
+		if r := tt.orLanes(a, b); r != nil {
+			return r
+		}
 	case OpXor:
 		if a.IsConst() {
 			a, b = b, a
@@ -1063,4 +1066,179 @@ func (t *Term) str(d int) string {
 	}
 	sb.WriteByte(')')
 	return sb.String()
+}
+
+// ---- byte-lane canonicalisation -------------------------------------------------------
+// Values assembled with shifts and ors from pieces of other values (binary.LittleEndian
+// get/put and friends) are recognised and rebuilt as concatenations; in particular the
+// reassembly of all pieces of x in place yields x itself.
+
+type lane struct {
+	off, w int
+	src    *Term
+	lo     int
+}
+
+// lanesOf decomposes t into non-overlapping lanes (zero elsewhere). ok=false if t is opaque
+// (then it is a single lane covering everything, which the caller may still use).
+func (tt *TermTable) lanesOf(t *Term, depth int) ([]lane, bool) {
+	if depth > 12 {
+		return nil, false
+	}
+	switch t.Op {
+	case OpConst:
+		if t.Val == 0 {
+			return nil, true
+		}
+		return nil, false
+	case OpZExt:
+		in := t.Args[0]
+		ls, ok := tt.lanesOf(in, depth+1)
+		if !ok {
+			return []lane{{0, in.W, in, 0}}, true
+		}
+		return ls, true
+	case OpExtract:
+		lo := int(t.Val & 0xff)
+		return []lane{{0, t.W, t.Args[0], lo}}, true
+	case OpShl:
+		if !t.Args[1].IsConst() {
+			return nil, false
+		}
+		c := int(t.Args[1].Val)
+		ls, ok := tt.lanesOf(t.Args[0], depth+1)
+		if !ok {
+			ls = []lane{{0, t.W, t.Args[0], 0}}
+		}
+		var out []lane
+		for _, l := range ls {
+			no := l.off + c
+			if no >= t.W {
+				continue
+			}
+			w := l.w
+			if no+w > t.W {
+				w = t.W - no
+			}
+			out = append(out, lane{no, w, l.src, l.lo})
+		}
+		return out, true
+	case OpConcat:
+		hi, lo := t.Args[0], t.Args[1]
+		lls, ok := tt.lanesOf(lo, depth+1)
+		if !ok {
+			lls = []lane{{0, lo.W, lo, 0}}
+		}
+		hls, ok := tt.lanesOf(hi, depth+1)
+		if !ok {
+			hls = []lane{{0, hi.W, hi, 0}}
+		}
+		out := append([]lane(nil), lls...)
+		for _, l := range hls {
+			out = append(out, lane{l.off + lo.W, l.w, l.src, l.lo})
+		}
+		return out, true
+	case OpOr:
+		a, ok1 := tt.lanesOf(t.Args[0], depth+1)
+		b, ok2 := tt.lanesOf(t.Args[1], depth+1)
+		if !ok1 || !ok2 {
+			return nil, false
+		}
+		m, ok := mergeLanes(a, b)
+		return m, ok
+	}
+	return nil, false
+}
+
+func mergeLanes(a, b []lane) ([]lane, bool) {
+	out := append(append([]lane(nil), a...), b...)
+	// insertion sort by offset
+	for i := 1; i < len(out); i++ {
+		for j := i; j > 0 && out[j].off < out[j-1].off; j-- {
+			out[j], out[j-1] = out[j-1], out[j]
+		}
+	}
+	for i := 1; i < len(out); i++ {
+		if out[i-1].off+out[i-1].w > out[i].off {
+			return nil, false // overlap
+		}
+	}
+	return out, true
+}
+
+func (tt *TermTable) fromLanes(w int, ls []lane) *Term {
+	// fuse adjacent lanes of the same source
+	var f []lane
+	for _, l := range ls {
+		if n := len(f); n > 0 {
+			p := &f[n-1]
+			if p.src == l.src && p.off+p.w == l.off && p.lo+p.w == l.lo {
+				p.w += l.w
+				continue
+			}
+		}
+		f = append(f, l)
+	}
+	if len(f) == 1 && f[0].off == 0 && f[0].lo == 0 && f[0].w == w && f[0].src.W == w {
+		return f[0].src
+	}
+	// build from the least significant piece upwards
+	var res *Term
+	pos := 0
+	add := func(p *Term) {
+		if res == nil {
+			res = p
+		} else {
+			res = tt.mkConcat(p, res)
+		}
+	}
+	for _, l := range f {
+		if l.off > pos {
+			add(tt.Const(l.off-pos, 0))
+		}
+		add(tt.Extract(l.src, l.lo+l.w-1, l.lo))
+		pos = l.off + l.w
+	}
+	if pos < w {
+		add(tt.Const(w-pos, 0))
+	}
+	if res == nil {
+		return tt.Const(w, 0)
+	}
+	return res
+}
+
+// mkConcat builds a concat node without the zero-extension rewrite (keeps lane form stable).
+func (tt *TermTable) mkConcat(hi, lo *Term) *Term {
+	if hi.IsConst() && lo.IsConst() {
+		return tt.Const(hi.W+lo.W, hi.Val<<uint(lo.W)|lo.Val)
+	}
+	if hi.IsConst() && hi.Val == 0 {
+		return tt.ZExt(lo, hi.W+lo.W)
+	}
+	return tt.mk(OpConcat, hi.W+lo.W, 0, "", []*Term{hi, lo})
+}
+
+// orLanes tries to express a|b through lanes.
+func (tt *TermTable) orLanes(a, b *Term) *Term {
+	interesting := func(t *Term) bool {
+		return t.Op == OpShl || t.Op == OpConcat || (t.Op == OpZExt && (t.Args[0].Op == OpExtract || t.Args[0].Op == OpConcat)) ||
+			(t.Op == OpOr)
+	}
+	if !interesting(a) && !interesting(b) {
+		return nil
+	}
+	la, ok := tt.lanesOf(a, 0)
+	if !ok {
+		return nil
+	}
+	lb, ok := tt.lanesOf(b, 0)
+	if !ok {
+		return nil
+	}
+	m, ok := mergeLanes(la, lb)
+	if !ok {
+		return nil
+	}
+	return tt.fromLanes(a.W, m)
 }
